@@ -174,6 +174,38 @@ def subsOp (subs : Subs) : Op → Subs
   | .kill l => unsubscribeAll subs l
   | _ => subs
 
+/-! ## Syntactic functions on programs (used in the statements of the theorems) -/
+
+mutual
+/-- All messages a program text can broadcast itself, in program (pre-)order. -/
+def bcastsOp : Op → List Msg
+  | .bcast m => [m]
+  | .delay b => bcastsOps b
+  | .ignore _ b => bcastsOps b
+  | .catch b => bcastsOps b
+  | _ => []
+def bcastsOps : List Op → List Msg
+  | [] => []
+  | op :: rest => bcastsOp op ++ bcastsOps rest
+end
+
+mutual
+/-- The program text contains neither `raise` nor an `ignore` block. -/
+def plainOp : Op → Bool
+  | .raise => false
+  | .ignore _ _ => false
+  | .delay b => plainOps b
+  | .catch b => plainOps b
+  | _ => true
+def plainOps : List Op → Bool
+  | [] => true
+  | op :: rest => plainOp op && plainOps rest
+end
+
+/-- Events of the instrumented handlers at nesting level `lvl` (the handlers called directly by
+the broadcasts of the code running at that level). -/
+def atLevel (lvl : Nat) (es : List Ev) : List Ev := es.filter fun e => e.lvl == lvl
+
 /-! ## Spec -/
 namespace Spec
 
